@@ -11,7 +11,8 @@
 (* computed from ALL batches of both sets of all runs so far, whatever the interleaving; when it raises, the result is      *)
 (* not refreshed; the two threads never write the same accumulator.                                                      *)
 EXTENDS Integers, Sequences, TLC, Json
-CONSTANTS NB,          \* <<batches of set 1, batches of set 2>> per run
+CONSTANTS NB,          \* <<batches of set 1, batches of set 2>> of the first run
+          NB2,         \* the same for every later run (the trace sets of consecutive runs need not have the same size)
           Runs,        \* number of consecutive run() calls
           FailRun, FailThread, FailBatch,     \* injected failure (FailRun = 0: none)
           SharedBug,   \* sensitivity: "none" | "shared" (thread 2 adds into accumulator 1)
@@ -19,6 +20,7 @@ CONSTANTS NB,          \* <<batches of set 1, batches of set 2>> per run
 VARIABLES pcm, pct, b, acc, cnt, stop, exc, alive, comp, result, raised, run, sched
 vars == <<pcm, pct, b, acc, cnt, stop, exc, alive, comp, result, raised, run, sched>>
 T == {1, 2}
+NBr(r, i) == IF r = 1 THEN NB[i] ELSE NB2[i]
 Init == /\ pcm = "start1" /\ pct = [i \in T |-> "idle"] /\ b = [i \in T |-> 1]
         /\ acc = [i \in T |-> <<>>] /\ cnt = [i \in T |-> 0]
         /\ stop = [i \in T |-> FALSE] /\ exc = [i \in T |-> FALSE] /\ alive = [i \in T |-> FALSE]
@@ -28,7 +30,7 @@ Log(e) == sched' = IF Gen THEN Append(sched, e) ELSE sched
 Reset(i) == /\ pct[i] = "reset" /\ exc' = [exc EXCEPT ![i] = FALSE] /\ stop' = [stop EXCEPT ![i] = FALSE]
             /\ pct' = [pct EXCEPT ![i] = "loop"] /\ UNCHANGED <<pcm, b, acc, cnt, alive, comp, result, raised, run, sched>>
 Loop(i) == /\ pct[i] = "loop"
-           /\ IF b[i] > NB[i] \/ stop[i]
+           /\ IF b[i] > NBr(run, i) \/ stop[i]
               THEN pct' = [pct EXCEPT ![i] = "exit"] /\ UNCHANGED <<exc, sched>>
               ELSE IF FailRun = run /\ FailThread = i /\ FailBatch = b[i]
                    THEN exc' = [exc EXCEPT ![i] = TRUE] /\ pct' = [pct EXCEPT ![i] = "exit"] /\ Log(<<"F", i>>)
@@ -69,12 +71,12 @@ Next == Main \/ \E i \in T : Thread(i)
 Spec == Init /\ [][Next]_vars /\ WF_vars(Main) /\ \A i \in T : WF_vars(Thread(i))
 
 \* ---- P ----------------------------------------------------------------------------------------------------------------------
-AllBatches(i, upto) == LET f[r \in 0..upto] == IF r = 0 THEN <<>> ELSE f[r - 1] \o [k \in 1..NB[i] |-> <<r, i, k>>] IN f[upto]
+AllBatches(i, upto) == LET f[r \in 0..upto] == IF r = 0 THEN <<>> ELSE f[r - 1] \o [k \in 1..NBr(r, i) |-> <<r, i, k>>] IN f[upto]
 Failed(r) == FailRun = r
 \* at the end: a result was produced by the last run that did not fail, from all batches of all runs up to it
 Terminates == <>(pcm = "done")
 ResultIsWelchOfEverything ==
-    (pcm = "done" /\ FailRun = 0) => result = << <<AllBatches(1, Runs), Runs * NB[1]>>, <<AllBatches(2, Runs), Runs * NB[2]>> >>
+    (pcm = "done" /\ FailRun = 0) => result = << <<AllBatches(1, Runs), NB[1] + (Runs - 1) * NB2[1]>>, <<AllBatches(2, Runs), NB[2] + (Runs - 1) * NB2[2]>> >>
 RaisesIffFailed == pcm = "done" => (raised <=> Failed(Runs))
 \* a run that raises does not refresh the result: it still is the result of the previous run (or none)
 NotRefreshedOnFailure == [][(pcm = "welch" /\ raised) => result' = result]_vars
